@@ -1,4 +1,5 @@
 import Driver.Dec
 import Driver.Rid
 import Driver.Evq
+import Driver.EvqConc
 import Driver.Main
